@@ -155,9 +155,13 @@ class TTY(object):
             if frame.startswith(b"\x00\x00\xff\x00\xff\x00"):
                 log.log(logging.DEBUG-1, "<<< %s", hexlify(frame).decode())
                 return frame
+            if len(frame) < 6:
+                raise IOError(errno.EIO, os.strerror(errno.EIO))
             LEN = frame[3]
             if LEN == 0xFF:
                 frame += self.tty.read(3)
+                if len(frame) < 9:
+                    raise IOError(errno.EIO, os.strerror(errno.EIO))
                 LEN = frame[5] << 8 | frame[6]
             frame += self.tty.read(LEN + 1)
             log.log(logging.DEBUG-1, "<<< %s", hexlify(frame).decode())
